@@ -14,7 +14,7 @@ import (
 type c07Case struct {
 	Cfg    LimitCfg `json:"cfg"`
 	Prefix []Sample `json:"prefix"`
-	Idle   Sample   `json:"idle"`   // (a) app-limited, non-drop sample; in-flight = Idle.Inf % bound
+	Idle   Sample   `json:"idle"`    // (a) app-limited, non-drop sample; in-flight = Idle.Inf % bound
 	RunRTT int64    `json:"run_rtt"` // (b) constant RTT used when no baseline is set (always for gradient2)
 	AIMDN  int      `json:"aimd_n"`
 }
